@@ -27,7 +27,8 @@ def floors(tier):
     return {"evals": 3000 if tier == "quick" else 60000, "distinct": 2000,
             "classes": {"subset:LINE": 300, "subset:BRANCH+LINE": 300, "subset:BRANCH+LINE+CHECKED": 300, "raised-mid-function": 50,
                         "feature:with": 100, "feature:try-finally": 100, "feature:comprehension": 100, "feature:match": 100,
-                        "feature:generator": 30, "feature:loop-else": 100}}
+                        "feature:generator": 30, "feature:loop-else": 100,
+                        "history:previous-execution-ended-where-this-one-starts": 40}}
 
 
 def plan(tier, seed):
@@ -112,9 +113,42 @@ class K:
 
 def d_class(v):
     return K().m(v)
+
+
+# consecutive executions: the previous execution ends on the very line the next one starts with
+def h_scale(a, b):
+    return a // b
+
+
+def h_one(v):
+    return v + 1
+
+
+def h_drain(n):
+    while n > 0:
+        n -= 1
+
+
+def h_first_raises(a, b):
+    r = a % b
+    if r:
+        return r
+    return -1
+
+
+def h_loop_tail(n):
+    for i in range(n):
+        pass
 '''
 DIRECTED_CALLS = [("d_lines", "typed", (a, b)) for a in (0, 1, 3, 5) for b in (0, 2, 3)] + [("d_nested", "typed", (n,)) for n in (0, 1, 3)] + [
-    ("d_class", "typed", (0,)), ("d_class", "typed", (1,))]
+    ("d_class", "typed", (0,)), ("d_class", "typed", (1,))] + [
+    # histories (order matters): an execution that raises on the first body line, then a normal one; a one-line body twice in a
+    # row; a function that falls off its end in a loop header, then a zero-iteration call of the same function
+    ("h_scale", "typed", (1, 0)), ("h_scale", "typed", (9, 2)), ("h_one", "typed", (1,)), ("h_one", "typed", (2,)), ("h_one", "typed", (3,)),
+    ("h_drain", "typed", (2,)), ("h_drain", "typed", (0,)), ("h_drain", "typed", (0,)), ("h_first_raises", "typed", (1, 0)),
+    ("h_first_raises", "typed", (4, 2)), ("h_first_raises", "typed", (5, 0)), ("h_first_raises", "typed", (5, 3)),
+    ("h_loop_tail", "typed", (2,)), ("h_loop_tail", "typed", (0,)), ("h_loop_tail", "typed", (0,)), ("h_scale", "typed", (3, 0)), ("h_scale", "typed", (3, 0)),
+    ("h_scale", "typed", (8, 2))]
 
 
 def _stmt_kind(src_lines, ln):
@@ -168,7 +202,8 @@ def _run_program(ctx, source, filename, modname, calls, describe, features, mate
             got, trace, _ld = inst.call(fn, materialise(kind, args))
             executed = import_lines | call_lines
             reported = {ln for _, ln in inst.covered_lines(trace)}
-            cl = [f"subset:{tag}"] + [f"feature:{f}" for f in features] + (["raised-mid-function"] if ref.kind == "exc" else [])
+            cl = [f"subset:{tag}"] + [f"feature:{f}" for f in features] + (["raised-mid-function"] if ref.kind == "exc" else []) + (
+                ["history:previous-execution-ended-where-this-one-starts"] if fn.startswith("h_") else [])
             ctx.ok(cls=cl, distinct=f"{modname}|{fn}|{args!r}|{tag}" if len(call_lines) >= 3 else None)
             case = {**describe(call), "subset": tag}
             if instr.same_outcome(ref, got):
